@@ -724,6 +724,7 @@ func search(e *env, seed uint64, n int, bins string) {
 	}
 	searchFiles(e, r, n/2)
 	searchSinf(e, r, n/10+3)
+	searchMulti(e, r, n/2)
 	if bins != "" {
 		searchBins(e, r, n/10+1, bins)
 	}
@@ -1232,9 +1233,10 @@ func thirdParty(e *env) {
 								}
 							}
 						}
-						fss, err := fr.GetFullSamples(trex)
-						if err != nil {
-							return nil, false
+						var fss []mp4.FullSample
+						var err error
+						if p := hx.Try(func() { fss, err = fr.GetFullSamples(trex) }); p != "" || err != nil {
+							return nil, false // data offsets that point outside the mdat make GetFullSamples panic
 						}
 						for _, fs := range fss {
 							ms = append(ms, meta{fs.Sample, fs.DecodeTime})
